@@ -3,6 +3,7 @@ import DmrVerif.Lemmas.IntegritySelf
 import DmrVerif.Lemmas.IntegrityHrnp
 import DmrVerif.Props.C04a
 import DmrVerif.Props.C05a
+import DmrVerif.Spec.EtsiCodes
 
 /-!
 # C04 — integrity indicators of parsed PDUs tell the truth about the received bits
@@ -49,6 +50,10 @@ theorem tables :
     ∧ hrnpOpcodes = [0xFE, 0xFD, 0xFC, 0xFB, 0xFA, 0x00, 0x10] ∧ hrnpData = 0 := by decide
 
 /-! ## slot type (Golay(20,8)) and EMB (QR(16,7)) -/
+
+/-- "code word" below means a word of the ETSI TS 102 361-1 Annex B.3 codes: the extracted generator
+matrices are the standard's (reference copy `Spec/EtsiCodes.lean`, shared with C06) -/
+theorem codes_are_etsi : golay2087.G = Spec.golay2087G ∧ qr1676.G = Spec.qr1676G := by decide +kernel
 
 /-- **selfcheck**: a slot type built from any colour code and data type value has `fec_parity_ok`, its
 serialisation is a Golay code word and parses back with `fec_parity_ok` -/
@@ -159,7 +164,7 @@ def InClass9 (n : Nat) (e : Bits) : Prop := IsBurst 9 (rateOrder e n)
 theorem p_const : p8.getLast? = some true ∧ p9.getLast? = some true ∧ p16.getLast? = some true := by
   decide
 
-theorem burst_feed' (p : Bits) (hp : p.getLast? = some true) (x : Bits) (h : IsBurst p.length x) :
+theorem burst_feed_of (p : Bits) (hp : p.getLast? = some true) (x : Bits) (h : IsBurst p.length x) :
     feed p x ≠ zeros p.length := by
   obtain ⟨i, j, b, rfl, hb, hne⟩ := h
   exact burst_feed p hp i j b hb hne
@@ -169,7 +174,7 @@ theorem class16_feed (e : Bits) (he : e.length = 96) (h : InClass16 e) : feed p1
   · have := weight_detect p16 96 3
       (show wdetTop 3 (rtabAux p16 96).2 = true from Dmr.C05.ccitt96_enum) e he h1 h3
     rwa [p16_length] at this
-  · have := burst_feed' p16 p_const.2.2 e (by rw [p16_length]; exact hb)
+  · have := burst_feed_of p16 p_const.2.2 e (by rw [p16_length]; exact hb)
     rwa [p16_length] at this
 
 theorem slcOrder_weight (e : Bits) (he : e.length = 36) : weight (slcOrder e) = weight e := by
@@ -183,11 +188,11 @@ theorem class8_feed (e : Bits) (he : e.length = 36) (h : InClass8 e) : feed p8 (
     have := weight_detect p8 36 2 slc_w2_enum (slcOrder e) hl
       (by rw [slcOrder_weight e he]; exact h1) (by rw [slcOrder_weight e he]; exact h2)
     rwa [p8_length] at this
-  · have := burst_feed' p8 p_const.1 _ (by rw [p8_length]; exact hb)
+  · have := burst_feed_of p8 p_const.1 _ (by rw [p8_length]; exact hb)
     rwa [p8_length] at this
 
 theorem class9_feed (n : Nat) (e : Bits) (h : InClass9 n e) : feed p9 (rateOrder e n) ≠ zeros 9 := by
-  have := burst_feed' p9 p_const.2.1 _ (by rw [p9_length]; exact h)
+  have := burst_feed_of p9 p_const.2.1 _ (by rw [p9_length]; exact h)
   rwa [p9_length] at this
 
 /-- every single-bit error of a block is in the class: in code order it is a burst of length 1 -/
